@@ -710,8 +710,8 @@ func c09CoqMir(m c09Mirror) string {
 func c09Coq(in *C09Input, obs *c09Obs) string {
 	var b strings.Builder
 	sync := !in.NoSchema
-	fmt.Fprintf(&b, "{| k_p := {| p_codec := {| sync_schema := %s; shallow := %s; tracked := %s |}; p_mut := %s |}; ",
-		coqBool(sync), coqBool(in.Shallow), coqNatList(obs.Tracked), coqBool(in.SyncMut))
+	fmt.Fprintf(&b, "{| k_p := {| p_codec := {| sync_schema := %s; shallow := %s; tracked := %s |}; p_mut := %s |}; k_pushes := %s; ",
+		coqBool(sync), coqBool(in.Shallow), coqNatList(obs.Tracked), coqBool(in.SyncMut), coqBool(in.Pushes))
 	fmt.Fprintf(&b, "k_n := %d; k_norel := %s; k_err := %s; ", in.N+1, coqBool(len(in.Rels) == 0), coqBool(obs.Err != ""))
 	fmt.Fprintf(&b, "k_hello_src := %s; k_hello := %s;\n   k_steps := [", c09CoqSnap(obs.HelloSrc), c09CoqMir(obs.Hello))
 	for i, st := range obs.Steps {
